@@ -225,6 +225,14 @@ def evaluate(w):
     oc = w.outcome
     ok = oc is not None and oc[0] == 'ok'
     fired = [fr for fr in w.faults.fired if fr['exc'] is not None]
+    if not ok and not fired:
+        # nothing was injected, so nothing may fail: a failure here is a bug of
+        # the harness (or of the library) that must not pass silently
+        import traceback
+        e = oc[1] if oc else None
+        harness.append(('unexpected-failure', '%r %s' % (e, ''.join(
+            traceback.format_exception(type(e), e, e.__traceback__))[-1500:] if e else '')))
+        return harness
     if t['op'] == 'upload':
         if ok:
             obj = w.s3.objects.get((BUCKET, t['key']))
